@@ -258,7 +258,10 @@ func init() {
 }
 
 // symBytes is an immutable []byte view of a string value (avoids forking on length).
-type symBytes struct{ s value }
+type symBytes struct {
+	s value
+	n value // optional modelled length (when it differs from the length of s)
+}
 
 type modelHasher struct {
 	alg    string
@@ -270,6 +273,7 @@ type hashApp struct {
 	stream *smt.Term
 	sval   value
 	res    *smt.Term
+	ord    *smt.Term // abstract position of the digest in the (arbitrary but fixed) order of digests
 }
 
 func (fr *frame) newModelHasher(typeName, alg string) value {
@@ -317,20 +321,37 @@ func (r *runState) applyHash(alg string, stream value) value {
 			}
 		}
 		res = r.declare(r.fresh("H_"+alg), smt.SString, "hash")
-		r.assertPC(smt.Eq(smt.StrLen(res), smt.IntC(int64(hashLen(alg)))))
+		// digests are non-empty (they are used as file names); their exact length is irrelevant
+		r.assertPC(smt.Le(smt.IntC(1), smt.StrLen(res)))
 		// digests are hex strings; all the model needs is that they are separator free
 		r.sepFree[res.Name] = true
+	}
+	// digests are only ever compared with each other: their order is modelled by an integer rank
+	// (an arbitrary total order, consistent with equality) instead of str.< on unconstrained strings
+	var ord *smt.Term
+	for _, a := range r.hashApps {
+		if a.res.IsConst && res.IsConst && a.res.S == res.S {
+			ord = a.ord
+		}
+	}
+	if ord == nil {
+		ord = r.declare(r.fresh("ord"), smt.SInt, "ord")
 	}
 	for _, a := range r.hashApps {
 		if a.alg != alg {
 			continue
 		}
 		if a.res.IsConst && res.IsConst {
+			if a.res.S != res.S {
+				r.assertPC(smt.Not(smt.Eq(a.ord, ord)))
+			}
 			continue
 		}
-		r.assertPC(smt.Eq(smt.Eq(a.res, res), strEqTerm(a.sval, stream)))
+		eq := strEqTerm(a.sval, stream)
+		r.assertPC(smt.Eq(smt.Eq(a.res, res), eq))
+		r.assertPC(smt.Eq(smt.Eq(a.ord, ord), eq))
 	}
-	r.hashApps = append(r.hashApps, hashApp{alg, st, stream, res})
+	r.hashApps = append(r.hashApps, hashApp{alg, st, stream, res, ord})
 	return mkSymStr(res)
 }
 
@@ -405,4 +426,26 @@ func init() {
 		fr.run().notes[cstr(args[0])] = fmt.Sprint(asInt64(fr.concretizeInt(args[1])))
 		return nil
 	})
+}
+
+// digestOrd returns the rank term of v if v is (syntactically) the result of a hash application.
+func (r *runState) digestOrd(v value) *smt.Term {
+	v = normStr(v)
+	switch x := v.(type) {
+	case string:
+		for _, a := range r.hashApps {
+			if a.res.IsConst && a.res.S == x {
+				return a.ord
+			}
+		}
+	case symStr:
+		if x.t.Op == "var" {
+			for _, a := range r.hashApps {
+				if a.res == x.t || (a.res.Op == "var" && a.res.Name == x.t.Name) {
+					return a.ord
+				}
+			}
+		}
+	}
+	return nil
 }
